@@ -156,6 +156,20 @@ def oracle(case, impl, ref):
     return bad
 
 
+def is_F36(case, clause, detail):
+    """known finding F36: an internal error inside auto_eval during an attribute completion is swallowed by
+    complete_symbol's `except Exception: return []` - the completions are empty instead of IPython's own"""
+    if clause != "result_is_original" or "(cattr," not in detail or "matches is []" not in detail:
+        return False
+    for o in case["ops"]:
+        if o.get("act") == "cattr" and o.get("faults") and repr(o["faults"]) in detail:
+            return all(s in ("SParse", "SAnalysis", "STryImport") for s, _ in o["faults"])
+    return False
+
+
+CLASSIFIERS = {"is_F36": is_F36}
+
+
 # ---------------------------------------------------------------------------------------------
 
 def evaluate(ctx, cases, results):
@@ -180,7 +194,11 @@ def evaluate(ctx, cases, results):
             ctx.disagreement("session trace under faults", c, d["impl"], dict(model=d["model"], step=d["step"], fields=d["fields"]))
             legacy.append(ci)
         for clause, detail in oracle(c, impl, ref):
-            ctx.violation(clause, c, detail)
+            hit = [k for k in ctx.open_findings() if CLASSIFIERS.get(k.get("classifier"), lambda *a: False)(c, clause, detail)]
+            if hit:
+                ctx.known_hit(hit[0]["id"], "attribute completion under an internal error in auto_eval returns [] instead of IPython's matches: " + detail[:160])
+            else:
+                ctx.violation(clause, c, detail)
         nf = sum(1 for o in c["ops"] if o.get("faults"))
         hits = sum(sum(e["cell"].get("hits", {}).values()) for e in impl["trace"][1:] if "cell" in e)
         ctx.count(c, hits > 0)
@@ -221,7 +239,8 @@ def run(ctx):
     if ctx.quick:
         r = cm.rng(ctx.seed, "c13-matrix")
         matrix = r.sample(matrix, 48)
-    cases = cm.load_corpus("C13") + matrix + gen_random(ctx, 24 if ctx.quick else 300)
+    witness = [dict(w["witness"], kind="witness") for w in ctx.open_findings() if w.get("witness")]
+    cases = cm.load_corpus("C13") + witness + matrix + gen_random(ctx, 24 if ctx.quick else 300)
     results = cm.run_impl("c13", "impl_case", cases, timeout_case=300)
     evaluate(ctx, cases, results)
 
